@@ -341,8 +341,16 @@ pub trait ExpressionTrait {
 }
 
 impl ExpressionTrait for Expression {
+    /// Whether the text of the expression ends with a closing parenthesis of a parenthesised
+    /// expression, so that a keyword may follow without a blank: `(A)THEN`, but also
+    /// `X > (4)THEN` and `NOT (A)THEN` (the last operand is what the keyword follows).
     fn is_parenthesis(&self) -> bool {
-        matches!(self, Self::Parenthesis(_))
+        match self {
+            Self::Parenthesis(_) => true,
+            Self::BinaryExpression(_, _, right, _) => right.is_parenthesis(),
+            Self::UnaryExpression(_, child) => child.is_parenthesis(),
+            _ => false,
+        }
     }
 
     fn should_flip_unary(&self, op: UnaryOperator) -> bool {
